@@ -217,3 +217,22 @@ where
 
     x
 }
+
+// ---------------------------------------------
+// verification hooks (pub wrapper, no behaviour change)
+// ---------------------------------------------
+#[cfg(clarabel_verif)]
+pub fn verif_backtrack_search<T>(
+    dq: &[T],
+    q: &[T],
+    α_init: T,
+    α_min: T,
+    step: T,
+    is_in_cone_fcn: impl Fn(&[T]) -> bool,
+    work: &mut [T],
+) -> T
+where
+    T: FloatT,
+{
+    backtrack_search(dq, q, α_init, α_min, step, is_in_cone_fcn, work)
+}
